@@ -438,6 +438,25 @@ func (r *Run) c03Reset() {
 		}
 	}
 	r.Check(len(others) == 0, "innovations.writers", "-", "the list is only appended to and emptied", "the innovation list is also rewritten by "+strings.Join(others, "; "))
+	// StoreInnovation records every innovation handed to it: the append of its argument is on every path
+	si := p.Func(PkgG, "Population.StoreInnovation")
+	r.Fn(FuncName(si))
+	tsi := NewTermer(si)
+	var rec ssa.Instruction
+	for _, st := range FieldStores(si, innov) {
+		if base, elems, ok := appendCall(st.Val); ok && len(elems) == 1 {
+			if t := tsi.Of(base); t.Op == "field" && t.Obj == innov && (isParamIdx(tsi.Of(elems[0]), 1) || isSpilledParam(elems[0], si.Params[1])) {
+				rec = st
+			}
+		}
+	}
+	if rec == nil {
+		r.Bad("StoreInnovation.records", p.Pos(si.Pos()), "StoreInnovation does not append its argument to the innovation list")
+	} else {
+		w := FindPath(p, PathQuery{Fn: si, FlagBlind: true, Target: IsReturn, Avoid: func(in ssa.Instruction) bool { return in == rec }})
+		r.Check(w == nil, "StoreInnovation.records", p.Pos(rec.Pos()), "every call appends the record (no path returns without it)",
+			"StoreInnovation can return without recording the innovation: the caller has already issued numbers for it, so a later identical innovation of the same generation finds no record and receives different numbers (and node id)", w...)
+	}
 }
 
 // c03Core: number provenance, reuse-key completeness and novel records of the three structural mutators
@@ -724,4 +743,27 @@ func c03Core(p *Prog, r *Run, sums *Summaries) {
 		}
 	})
 
+}
+
+// isSpilledParam: v loads a local that holds parameter prm (go/ssa keeps a by-value struct
+// parameter in an Alloc as soon as one of its fields is selected).
+func isSpilledParam(v ssa.Value, prm *ssa.Parameter) bool {
+	ld, ok := v.(*ssa.UnOp)
+	if !ok {
+		return false
+	}
+	al, ok := ld.X.(*ssa.Alloc)
+	if !ok {
+		return false
+	}
+	n := 0
+	for _, ref := range *al.Referrers() {
+		if st, ok := ref.(*ssa.Store); ok && st.Addr == ssa.Value(al) {
+			if st.Val != ssa.Value(prm) {
+				return false
+			}
+			n++
+		}
+	}
+	return n == 1
 }
